@@ -6,6 +6,7 @@ package harness
 
 import (
 	"bufio"
+	"sync/atomic"
 	"regexp"
 	"crypto/sha1"
 	"encoding/hex"
@@ -259,6 +260,21 @@ func RunShard(t *testing.T) {
 	hashes := map[string]bool{}
 	t0 := time.Now()
 	idx := start
+	// per-case watchdog (real clock, outside every bubble): a case that does not finish - e.g. an
+	// un-instrumented goroutine spinning, which no scheduler can see - ends the process; the parent
+	// finds the open case in the journal and confirms it alone.
+	var caseStart atomic.Int64
+	caseStart.Store(time.Now().UnixNano())
+	caseLimit := time.Duration(envInt("BW_CASE_TIMEOUT_S", 40)) * time.Second
+	go func() {
+		for {
+			time.Sleep(500 * time.Millisecond)
+			if time.Duration(time.Now().UnixNano()-caseStart.Load()) > caseLimit {
+				fmt.Fprintf(os.Stderr, "bwsim watchdog: case did not finish within %v\n", caseLimit)
+				os.Exit(3)
+			}
+		}
+	}()
 	for ; idx < start+maxCases; idx++ {
 		if idx%8 == 0 && time.Since(t0) > budget {
 			break
@@ -266,7 +282,9 @@ func RunShard(t *testing.T) {
 		clean := cleanEvery > 0 && idx%cleanEvery == 0
 		c := h.Gen(caseRand(prop, seed, shard, idx), tier, clean)
 		jr.line("B", strconv.Itoa(idx))
+		caseStart.Store(time.Now().UnixNano())
 		o := safeRun(h, t, c)
+		caseStart.Store(time.Now().UnixNano())
 		jr.line("E", strconv.Itoa(idx))
 		sum.Cases++
 		if clean {
